@@ -24,7 +24,16 @@ FPREC = 128
 
 
 def passes(tier):
-    return ["pin", "asan"] if tier == "quick" else ["pin", "asan", "heaptmp-asan"]
+    return ["pin", "asan", "rt"] if tier == "quick" else ["pin", "asan", "heaptmp-asan", "rt"]
+
+
+def load(variant):
+    if variant == "rt":
+        from .. import rt
+        rt.load()
+        rt.set_vector(rt.floor_vector())      # every algorithm regime is entered by operands of a few dozen limbs
+    else:
+        lib.load(variant)
 
 
 def preload(variant):
